@@ -11,6 +11,7 @@ impl CurView for Cursor<Vec<u8>> { open spec fn all(&self) -> Seq<u8> { self.inn
 impl<T> Cursor<T> {
     #[verifier::external_body] pub fn new(inner: T) -> (r: Self) ensures r.inner == inner, r.pos == 0 { unimplemented!() }
     #[verifier::external_body] pub fn position(&self) -> (r: u64) ensures r == self.pos { unimplemented!() }
+    #[verifier::external_body] pub fn set_position(&mut self, pos: u64) ensures final(self).inner == old(self).inner, final(self).pos == pos { unimplemented!() }
 }
 pub open spec fn rd_ok<C: CurView>(o: &C, f: &C, k: int) -> bool {
     f.all() == o.all() && 0 <= o.cpos() && o.cpos() + k <= o.all().len() && f.cpos() == o.cpos() + k
@@ -23,7 +24,7 @@ pub trait ReadBytesExt: CurView + Sized {
     fn read_u16<T: ByteOrder>(&mut self) -> (r: Result<u16, IoError>)
         ensures match r { Ok(b) => rd_ok(old(self), final(self), 2) && (T::is_le() ==> b == un_le16(old(self).rest().take(2))), Err(_) => rd_err(old(self), final(self), 2) };
     fn read_u32<T: ByteOrder>(&mut self) -> (r: Result<u32, IoError>)
-        ensures match r { Ok(b) => rd_ok(old(self), final(self), 4) && (T::is_le() ==> b == un_le32(old(self).rest().take(4))), Err(_) => rd_err(old(self), final(self), 4) };
+        ensures match r { Ok(b) => rd_ok(old(self), final(self), 4) && (T::is_le() ==> b == un_le32(old(self).rest().take(4))) && (!T::is_le() ==> b == un_be32(old(self).rest().take(4))), Err(_) => rd_err(old(self), final(self), 4) };
     fn read_u64<T: ByteOrder>(&mut self) -> (r: Result<u64, IoError>)
         ensures match r { Ok(b) => rd_ok(old(self), final(self), 8) && (T::is_le() ==> b == un_le64(old(self).rest().take(8))), Err(_) => rd_err(old(self), final(self), 8) };
 }
